@@ -21,7 +21,7 @@ CHECKS = {
 
  'C07': ('model_checking',
          'explicit enumeration of all registration tables / mutation scripts / packet sequences up to a bound on the real dispatcher, against a reference table model',
-         ' Part D (threads): the real dispatcher thread and a user thread under the controlled scheduler, a scheduling point at every line of the dispatcher class, 12 configurations (user adds / removes a registration while a callback removes itself / adds / removes / does nothing), every vector of <= 2 (thorough 3) deviations. The real _IncomingPacketHandler.run() is executed for all 256 headers x 1088 registrations and for every '
+         'Also: every registration made and removed through the public Crazyflie entry points (explicit, keyword, zero and defaulted masks; port callbacks).  Part D (threads): the real dispatcher thread and a user thread under the controlled scheduler, a scheduling point at every line of the dispatcher class, 12 configurations (user adds / removes a registration while a callback removes itself / adds / removes / does nothing), every vector of <= 2 (thorough 3) deviations. The real _IncomingPacketHandler.run() is executed for all 256 headers x 1088 registrations and for every '
          'registration list up to length 3 (quick) / 4 (thorough) in which each callback performs one scripted table '
          'mutation or raises, over 4 packet sequences; every execution is compared with an independent reference '
          'model of the table (exactly-once, table order, no non-matching delivery, survival after raise, removal '
@@ -59,7 +59,7 @@ CHECKS = {
          'DESIGN.md §3 C02', 'E3'),
  'C14': ('exploration',
          'exhaustive enumeration of field alphabets and of every single-byte corruption against independent reference codecs',
-         'Also: a non-black colour stored as black in a zero-time LED step; deck records with undecodable name bytes next to well-formed ones. Every image family the library writes or parses is driven on the real element classes through a byte-array device '
+         'Also: lighthouse geometry given as numpy arrays and tuples (memory layout), deck names followed by 0xFF filler behind the terminator. Also: a non-black colour stored as black in a zero-time LED step; deck records with undecodable name bytes next to well-formed ones. Every image family the library writes or parses is driven on the real element classes through a byte-array device '
          'memory (YAML managers through a temp directory) over complete cross products of stated finite alphabets (EEPROM: '
          'both versions x 4 channels x 3 speeds x 81 float32 trim pairs x 7 addresses; 1-wire: every single-element length '
          '0..253 per id, ordered id pairs x lengths 0..30^2, triples, 45 header combinations; lighthouse: 16 base stations x '
@@ -138,7 +138,7 @@ CHECKS = {
          'DESIGN.md §3 C04', 'E3'),
  'C05': ('model_checking',
          'exhaustive enumeration of variable lists/periods/values plus explicit-state BFS of the log-block life cycle on the real code, plus schedule exploration of SyncLogger',
-         'Also: packet objects handed to the link must still read the same after the later messages of a block creation; decoded samples are held and compared after later packets. Thread-free harness (real Crazyflie + real dispatcher loop pumped synchronously + SimCF): 123 variable lists '
+         'Also: raw-memory variables whose stored and fetched types differ in size on both sides of the 26-byte limit; decode of a block without variables. Also: packet objects handed to the link must still read the same after the later messages of a block creation; decoded samples are held and compared after later packets. Thread-free harness (real Crazyflie + real dispatcher loop pumped synchronously + SimCF): 123 variable lists '
          '(every stored x fetch type, default fetch, 0..27 one-byte variables, payloads 24..28 bytes, ids above 255, a '
          'missing name at each position, raw-memory variables) x periods on both sides of each limit: acceptance rule, '
          'nothing sent when rejected, create/append messages decoded by the device model (same variables, once, in order, '
@@ -188,7 +188,7 @@ CHECKS = {
          'DESIGN.md §3 C16', 'enumeration'),
  'C18': ('model_checking',
          'bounded exhaustive exploration of stream fragmentations, packet sequences and router/receiver interleavings on the real CPX code',
-         'Also: the caller\'s CRTP packet is unchanged by send_packet and sending the same object again puts the same bytes on the wire (TCP and UART). Also: every interleaving of the socket send calls of 2 and 3 application threads (whole frames must result), and delivery of packets behind a rejected one. Complete codec alphabet (4x4x7x2 headers x payload lengths 0-64 and boundary lengths, all 65 536 header byte pairs '
+         'Also: makeTransaction on a function that already has packets queued (nothing lost, order kept, one request on the wire). Also: the caller\'s CRTP packet is unchanged by send_packet and sending the same object again puts the same bytes on the wire (TCP and UART). Also: every interleaving of the socket send calls of 2 and 3 application threads (whole frames must result), and delivery of packets behind a rejected one. Complete codec alphabet (4x4x7x2 headers x payload lengths 0-64 and boundary lengths, all 65 536 header byte pairs '
          'against an independent reference); every stream of 1-4 packets up to 14 (quick) / 18 (thorough) bytes under all '
          '2^(n-1) recv fragmentations through the real SocketTransport.readPacket, long frames under all single cuts and all '
          'compositions of the leading bytes; all packet sequences of length <= 4/5 over three functions plus a bad-version '
@@ -212,7 +212,7 @@ CHECKS = {
          'DESIGN.md §3 C19', 'E3'),
  'C17': ('exploration',
          'exhaustive enumeration of motion programs up to a length bound with deviation-bounded exploration of setpoint-thread schedules in virtual time',
-         'Also: two commanders in the air at the same time (each stream judged on its own); a link that is busy for 0.5 s inside one setpoint transmission. Also: two complete flights (take_off, program, land, take_off, program, land) on one helper object for programs of length <= 1 (thorough 2), each flight judged on its own, the second from where the first ended; velocity commands without any streamed setpoint are a violation. The real MotionCommander (with its setpoint thread) and PositionHlCommander run on a recording Crazyflie stub under '
+         'Also: the same vertical velocity commanded again later. Also: two commanders in the air at the same time (each stream judged on its own); a link that is busy for 0.5 s inside one setpoint transmission. Also: two complete flights (take_off, program, land, take_off, program, land) on one helper object for programs of length <= 1 (thorough 2), each flight judged on its own, the second from where the first ended; velocity commands without any streamed setpoint are a violation. The real MotionCommander (with its setpoint thread) and PositionHlCommander run on a recording Crazyflie stub under '
          'the controlled scheduler with virtual time. Every program of up to 2 (thorough 3) primitives from an alphabet of 26 '
          'MotionCommander and 15 PositionHlCommander primitives (all directions, distances, velocities, turns, circles, '
          'start_*/stop, go_to, default and landing-height changes), in context-manager and explicit form, with an exception '
@@ -243,7 +243,7 @@ CHECKS = {
          'DESIGN.md §3 C12', 'E1'),
  'C09': ('exploration',
          'exhaustive enumeration of a stated finite lattice of rooms on the real matcher/estimator/solver pipeline against ground truth from an independent projector',
-         'Also: 40 (thorough 400) rooms solved after an estimate() call on a corrupt recording with the same station ids failed half-way. The real LighthouseSampleMatcher.match -> LighthouseInitialEstimator.estimate -> LighthouseGeometrySolver.solve '
+         'Also: the matcher with an explicit window argument (0, 5, 20, 90 ms) on hand-made time patterns. Also: 40 (thorough 400) rooms solved after an estimate() call on a corrupt recording with the same station ids failed half-way. The real LighthouseSampleMatcher.match -> LighthouseInitialEstimator.estimate -> LighthouseGeometrySolver.solve '
          'pipeline is executed on every room of a finite lattice (4 224 rooms quick, 33 444 thorough): 2-6 base stations on 8 '
          'asymmetric corner/wall spots at 1.5/2.5/4 m with non-axis-aligned aim offsets; 4 id assignments up to id 15; 5 '
          'linkable visibility graphs and all two-component / isolated-station / single-station unlinkable systems; '
